@@ -16,6 +16,7 @@ package standard
 import (
 	"context"
 	"fmt"
+	"sync"
 	"time"
 
 	"github.com/attestantio/go-eth2-client/api"
@@ -37,6 +38,21 @@ func (s *Service) scheduleProposals(ctx context.Context,
 		return
 	}
 
+	// Obtaining the duties and setting up their jobs must not be interleaved with a refresh,
+	// otherwise jobs for duties that the refresh has replaced could be set up after it.
+	s.proposerDutiesMutex.Lock()
+	defer s.proposerDutiesMutex.Unlock()
+
+	s.scheduleProposalsLocked(ctx, epoch, validatorIndices, notCurrentSlot)
+}
+
+// scheduleProposalsLocked schedules proposals for the given epoch and validator indices.
+// The caller must hold proposerDutiesMutex.
+func (s *Service) scheduleProposalsLocked(ctx context.Context,
+	epoch phase0.Epoch,
+	validatorIndices []phase0.ValidatorIndex,
+	notCurrentSlot bool,
+) {
 	started := time.Now()
 	s.log.Trace().Uint64("epoch", uint64(epoch)).Msg("Scheduling proposals")
 
@@ -67,6 +83,7 @@ func (s *Service) scheduleProposals(ctx context.Context,
 	}
 	s.log.Trace().Dur("elapsed", time.Since(started)).Int("duties", len(duties)).Msg("Filtered proposer duties")
 
+	var wg sync.WaitGroup
 	currentSlot := s.chainTimeService.CurrentSlot()
 	for _, duty := range duties {
 		// Do not schedule proposals for past slots (or the current slot if so instructed).
@@ -84,7 +101,9 @@ func (s *Service) scheduleProposals(ctx context.Context,
 				Msg("Beacon block proposal for the current slot; not scheduling")
 			continue
 		}
+		wg.Add(1)
 		go func(duty *beaconblockproposer.Duty) {
+			defer wg.Done()
 			if err := s.beaconBlockProposer.Prepare(ctx, duty); err != nil {
 				s.log.Error().Uint64("proposal_slot", uint64(duty.Slot())).Err(err).Msg("Failed to prepare beacon block proposal")
 				return
@@ -112,6 +131,7 @@ func (s *Service) scheduleProposals(ctx context.Context,
 			}
 		}(duty)
 	}
+	wg.Wait()
 	s.log.Trace().Dur("elapsed", time.Since(started)).Msg("Scheduled beacon block proposals")
 }
 
